@@ -12,6 +12,7 @@ whole reader on damaged files are compared with the implementation's by the corr
 -/
 import JubakoModel.Model.Container
 import JubakoModel.Lemmas.DamageFile
+import JubakoModel.Lemmas.FuncsSync
 
 namespace Jubako
 
@@ -244,5 +245,13 @@ example (n i : Nat) :
   c06_file_content_no_crash _ _ ContentFileExample.codec_sound (by decide) _ ContentFileExample.pmeta_wf _ _
     ContentFileExample.arrival_perm (by decide) (by decide) (by decide) (by decide)
     ContentFileExample.size_ok _ (blocksAgree_take _ n) i
+
+/-- the decoder protocol under which no reader is left waiting (`c07_progress`, failure included) is the
+    statement sequence of `decode_to_end` extracted from the source on every run: on a failing read the
+    failure is recorded under the lock, every waiter is notified, and the decoder stops -/
+theorem c06_decoder_protocol_is_source_protocol :
+    Generated.svDecoderLoopShape = decoderTurnStmts ∧ Generated.svDecoderOkShape = decoderPublishStmts ∧
+    Generated.svDecoderErrShape = decoderFailStmts :=
+  gen_svShapes
 
 end Jubako
